@@ -2,26 +2,27 @@ package main
 
 import (
 	"bytes"
-	"crypto/dsa"
-	"crypto/elliptic"
-	"strconv"
 	"crypto"
-	"encoding/base64"
-	"io"
-	"net/http"
-	"net/url"
+	"crypto/dsa"
 	"crypto/ecdsa"
 	"crypto/ed25519"
+	"crypto/elliptic"
 	"crypto/rand"
 	"crypto/rsa"
 	"crypto/x509"
+	"encoding/base64"
 	"encoding/pem"
 	"fmt"
+	"io"
 	"net"
+	"net/http"
+	"net/url"
 	"os"
 	"path/filepath"
 	"sort"
+	"strconv"
 	"strings"
+	"sync/atomic"
 	"testing"
 	"time"
 
@@ -42,6 +43,9 @@ import (
 //	                   insertSSHCertIntoAgentORWriteToFilesystem three times with the real SshMain key and a
 //	                   locally signed certificate, under a temporary directory, with / without an agent
 //	                   -> files=<name:mode,…> agent=<comment:cert|plain,…> keyfile=<private key found in a file 0|1>
+//	k install <pref> planted
+//	                   the agent-absent case with foreign listeners on conventional agent socket names under
+//	                   $TMPDIR -> … captured=<keys those listeners received> foreignconns=<connections they accepted>
 //	k genkey <kind> <bits>   a key of any kind for the server's acceptance matrix
 //	                   -> desc=<kind:bits:e> #ssh=<hex line> #pkix=<hex PEM>
 //	k genkeypair       util.GenKeyPair -> files=<name:mode,…>
@@ -177,6 +181,13 @@ func TestVerifC19(t *testing.T) {
 				}()
 				os.Setenv("SSH_AUTH_SOCK", sock)
 			}
+			// planted: no agent is configured, but somebody else listens on guessable agent-socket names in the
+			// world-writable temporary directory (TMPDIR points at a scratch directory; XDG_RUNTIME_DIR unset)
+			var planted *vfPlanted
+			if f[2] == "planted" {
+				planted = vfPlant(t)
+				defer planted.restore()
+			}
 			result := "ok"
 			for round := 0; round < 3; round++ {
 				sshPub, _ := ssh.NewPublicKey(s.SshMain.Public())
@@ -189,7 +200,7 @@ func TestVerifC19(t *testing.T) {
 				certText := ssh.MarshalAuthorizedKey(cert)
 				err = insertSSHCertIntoAgentORWriteToFilesystem(certText, s.SshMain, FilePrefix+"-"+f[1], "username",
 					filepath.Join(dir, "ssh", "keymaster-"+f[1]), false, logger)
-				if err != nil && f[2] == "noagent" && round == 0 {
+				if err != nil && f[2] != "agent" && round == 0 {
 					// the key directory must exist, as setupCerts' makeDirs guarantees
 					os.MkdirAll(filepath.Join(dir, "ssh"), 0700)
 					err = insertSSHCertIntoAgentORWriteToFilesystem(certText, s.SshMain, FilePrefix+"-"+f[1], "username",
@@ -214,7 +225,13 @@ func TestVerifC19(t *testing.T) {
 				ag = strings.Join(al, ",")
 			}
 			p600, pOther := vfHasPrivateKeyFile(dir)
-			io.emit("%s files=%s agent=%s privfiles0600=%d privfilesother=%d", result, vfListDir(dir), ag, p600, pOther)
+			extra := ""
+			if planted != nil {
+				keys, conns := planted.captured()
+				extra = fmt.Sprintf(" captured=%d foreignconns=%d planted=%d", keys, conns, len(planted.listeners))
+				planted.restore()
+			}
+			io.emit("%s files=%s agent=%s privfiles0600=%d privfilesother=%d%s", result, vfListDir(dir), ag, p600, pOther, extra)
 			if ln != nil {
 				ln.Close()
 			}
@@ -498,4 +515,83 @@ func vfGenKey(kind, bitsStr string) string {
 		pkix = string(pem.EncodeToMemory(&pem.Block{Type: "PUBLIC KEY", Bytes: der}))
 	}
 	return fmt.Sprintf("desc=%s #ssh=%s #pkix=%s", desc, vfHex(sshLine), vfHex(pkix))
+}
+
+// vfPlanted: what another local user could do — listen on predictable names in the shared temp dir.
+type vfPlanted struct {
+	dir       string
+	listeners []net.Listener
+	rings     []agent.Agent
+	conns     int64
+	env       map[string]*string
+	done      bool
+}
+
+var vfPlantedNames = []string{"ssh-agent.socket", "ssh-agent.sock", "agent.sock", "ssh_auth_sock", "ssh-agent",
+	"S.gpg-agent.ssh", "gnupg/S.gpg-agent.ssh", "keyring/ssh", "gcr/ssh", "openssh_agent", "ssh-agent.username"}
+
+func vfPlant(t *testing.T) *vfPlanted {
+	p := &vfPlanted{env: map[string]*string{}}
+	p.dir, _ = os.MkdirTemp("", "vfc19tmp")
+	os.Chmod(p.dir, 0777|os.ModeSticky)
+	for _, name := range vfPlantedNames {
+		path := filepath.Join(p.dir, name)
+		os.MkdirAll(filepath.Dir(path), 0777)
+		ln, err := net.Listen("unix", path)
+		if err != nil {
+			continue
+		}
+		ring := agent.NewKeyring()
+		p.listeners = append(p.listeners, ln)
+		p.rings = append(p.rings, ring)
+		go func() {
+			for {
+				c, err := ln.Accept()
+				if err != nil {
+					return
+				}
+				atomic.AddInt64(&p.conns, 1)
+				go agent.ServeAgent(ring, c)
+			}
+		}()
+	}
+	for _, k := range []string{"TMPDIR", "XDG_RUNTIME_DIR", "SSH_AUTH_SOCK"} {
+		if v, ok := os.LookupEnv(k); ok {
+			vv := v
+			p.env[k] = &vv
+		} else {
+			p.env[k] = nil
+		}
+	}
+	os.Setenv("TMPDIR", p.dir)
+	os.Unsetenv("XDG_RUNTIME_DIR")
+	os.Unsetenv("SSH_AUTH_SOCK")
+	return p
+}
+
+func (p *vfPlanted) captured() (int, int) {
+	n := 0
+	for _, r := range p.rings {
+		keys, _ := r.List()
+		n += len(keys)
+	}
+	return n, int(atomic.LoadInt64(&p.conns))
+}
+
+func (p *vfPlanted) restore() {
+	if p.done {
+		return
+	}
+	p.done = true
+	for k, v := range p.env {
+		if v == nil {
+			os.Unsetenv(k)
+		} else {
+			os.Setenv(k, *v)
+		}
+	}
+	for _, ln := range p.listeners {
+		ln.Close()
+	}
+	os.RemoveAll(p.dir)
 }
